@@ -11,8 +11,12 @@ META = {
             "assignment, set add/discard/remove/pop/clear/update/|=/-=/^=/&=,"
             " module-list append/insert/extend/+=/del/slice assignment/pop/"
             "remove/clear/reverse, constructors with parent or stolen "
-            "children, symbol edits, save->load joining the world) over 2-5 "
-            "IRs and ~20-60 nodes; world check after every operation. "
+            "children (also another parent's live collection), batch "
+            "operations whose argument is a plain container, another owning "
+            "collection or the collection itself, ping-pong moves (away and "
+            "back through random routes), one bulk call with 5-66 nodes, "
+            "symbol edits, save->load joining the world) over 2-5 IRs and "
+            "~20-120 nodes; world check after every operation. "
             "Non-trivial = every history (>=25 operations); distinct = hash "
             "of the operation list.",
     "reach": {"world_checks": 5000, "c03:attached_lookups": 50000,
